@@ -118,6 +118,7 @@ func (fx *FuncExec) run() {
 			st.assume(and(not(eq(c, "null_"+si.Sort)), sel(fx.H(st, si.Alloc), c)))
 		}
 		fx.declareVar(st, v, c)
+		fx.params = append(fx.params, v)
 	}
 	if sig.Recv() != nil {
 		bind(sig.Recv(), "p_")
@@ -228,6 +229,14 @@ func (fx *FuncExec) run() {
 			}
 			for ri, rs := range retStates {
 				env := fx.specEnv(rs, fx.entry, fx.bodyPos(), "ensures")
+				// a postcondition speaks to the caller, who knows the arguments it
+				// passed: parameter names denote their entry values, also when the
+				// body reassigns them
+				for _, pv := range fx.params {
+					if _, ok := fx.entry.vars[varKey(pv)]; ok {
+						env.bound[pv.Name()] = fx.readVar(fx.entry, pv)
+					}
+				}
 				fx.bindResults(env, rs)
 				g := env.Bool(en.Expr)
 				name := fmt.Sprintf("%s/ensures#%d", fx.fi.Key, k)
